@@ -25,10 +25,12 @@ import (
 	"context"
 	"fmt"
 	"net"
+	"strings"
 	"sync"
 
 	"github.com/postalsys/muti-metroo/internal/crypto"
 	"github.com/postalsys/muti-metroo/internal/health"
+	"github.com/postalsys/muti-metroo/internal/icmp/vicmp"
 	"github.com/postalsys/muti-metroo/internal/protocol"
 	"github.com/postalsys/muti-metroo/internal/vmc"
 	"github.com/postalsys/muti-metroo/internal/vmc/sched"
@@ -418,6 +420,154 @@ func c04ICMPRun(r *vmc.Result, cs c04ICMPCase) {
 	r.Outcome(fmt.Sprintf("%d|%s|%d|%s|%d", cs.Transits, cs.Kind, cs.Size, outcome, echoFrames))
 }
 
+// ---- real exit (fake ICMP socket) -------------------------------------------------------------
+
+// c04ICMPRealExit drives the whole ICMP tunnel with real code at both ends: real ingress, real transit(s)
+// and the real exit-side icmp.Handler, whose socket is the vicmp loopback fake (every echo request written
+// to it is recorded and answered with the matching reply). Oracle: frames as in the other kinds, with the
+// key taken from the EXIT's session; the socket receives exactly the client's payload; the client receives
+// exactly the reply payload.
+func c04ICMPRealExit(r *vmc.Result, cs c04ICMPCase) {
+	vicmp.Reset()
+	c04ICMPExit = true
+	nt, err := c04Build(cs.Transits, "")
+	c04ICMPExit = false
+	if err != nil {
+		r.HarnessError("C04 icmp build: %v", err)
+		return
+	}
+	defer nt.close()
+	A, X := nt.agents[0], nt.agents[nt.n-1]
+	last := nt.n - 1
+	fail := func(clause, what string) {
+		r.Violate("C04/"+clause+"/"+cs.Kind, fmt.Sprintf("%d transit(s), kind %s, size %d: %s", cs.Transits, cs.Kind, cs.Size, what), cs)
+	}
+	if X.icmpHandler == nil {
+		r.HarnessError("C04 %+v: exit has no ICMP handler", cs)
+		return
+	}
+	before := len(nt.sentSnapshot())
+	up := nsMarked(c04Marker+"UP-", cs.Size)
+	dest := net.IPv4(10, 9, 0, 1)
+	ctx := context.Background()
+	mesh := func() { nt.run(nil, 100000) }
+	var key, exitKey [32]byte
+	haveKey, haveExitKey := false, false
+	exitSession := func() {
+		for _, s := range nt.sentSnapshot()[before:] {
+			if s.To == last {
+				if f, derr := protocol.Decode(s.Bytes); derr == nil && f.Type == protocol.FrameICMPOpen {
+					if sess := X.icmpHandler.GetSession(f.StreamID); sess != nil {
+						if k := sess.GetSessionKey(); k != nil {
+							exitKey, haveExitKey = k.Key(), true
+						}
+					}
+				}
+			}
+		}
+	}
+	echoes := 0
+	switch cs.Kind {
+	case "icmp-ws-real-exit":
+		sess, err, ok := nsCall(nt, func() (*health.ICMPSession, error) { return A.OpenICMPSession(ctx, nt.ids[last], dest) })
+		if !ok || err != nil {
+			r.HarnessError("C04 %+v: OpenICMPSession: ok=%v err=%v", cs, ok, err)
+			return
+		}
+		A.icmpWSSessionMu.RLock()
+		ws := A.icmpWSSessionByStream[sess.StreamID]
+		A.icmpWSSessionMu.RUnlock()
+		if ws != nil {
+			ws.mu.RLock()
+			if ws.SessionKey != nil {
+				key, haveKey = ws.SessionKey.Key(), true
+			}
+			ws.mu.RUnlock()
+		}
+		exitSession()
+		for k := 0; k < 2; k++ {
+			sess.SendEcho <- &health.ICMPEchoRequest{Identifier: 7, Sequence: uint16(k), Payload: up}
+			var resp *health.ICMPEchoResponse
+			if !nsWait(func() bool {
+				mesh()
+				select {
+				case resp = <-sess.ReceiveEcho:
+					return true
+				default:
+					return false
+				}
+			}) {
+				r.HarnessError("C04 %+v: reply %d never reached the session", cs, k)
+				return
+			}
+			echoes++
+			if resp.Error != "" || !bytes.Equal(resp.Payload, up) {
+				fail("bytes-differ", fmt.Sprintf("reply %d delivered to the WebSocket session differs from the echoed payload (error %q, %d bytes)", k, resp.Error, len(resp.Payload)))
+			}
+		}
+		sess.Close()
+		mesh()
+	case "icmp-socks-real-exit":
+		sid, err, ok := nsCall(nt, func() (uint64, error) { return A.CreateICMPSession(ctx, dest) })
+		if !ok || err != nil {
+			r.HarnessError("C04 %+v: CreateICMPSession: ok=%v err=%v", cs, ok, err)
+			return
+		}
+		A.icmpIngressMu.RLock()
+		ing := A.icmpIngressByStream[sid]
+		A.icmpIngressMu.RUnlock()
+		if ing != nil {
+			ing.mu.RLock()
+			if ing.SessionKey != nil {
+				key, haveKey = ing.SessionKey.Key(), true
+			}
+			ing.mu.RUnlock()
+		}
+		exitSession()
+		for k := 0; k < 2; k++ {
+			if err := A.RelayICMPEcho(sid, 9, uint16(k), up); err != nil {
+				r.HarnessError("C04 %+v: RelayICMPEcho: %v", cs, err)
+				return
+			}
+			want := k + 1
+			// the exit answers through its reply goroutine: wait until the reply frame left the exit
+			if !nsWait(func() bool {
+				mesh()
+				return nt.countSent(last, func(f *protocol.Frame) bool { return f.Type == protocol.FrameICMPEcho }) >= want
+			}) {
+				r.HarnessError("C04 %+v: exit never answered echo %d", cs, k)
+				return
+			}
+			echoes++
+		}
+		A.CloseICMPSession(sid)
+		mesh()
+	}
+	// what the exit put on the (fake) wire: exactly the client's payload, once per echo
+	var sent []vicmp.Sent
+	for _, c := range vicmp.Conns() {
+		sent = append(sent, c.Sent()...)
+	}
+	if len(sent) != echoes {
+		fail("bytes-differ", fmt.Sprintf("the exit wrote %d echo requests to its socket for %d client echoes", len(sent), echoes))
+	}
+	for _, sd := range sent {
+		if !bytes.Equal(sd.Data, up) {
+			fail("bytes-differ", fmt.Sprintf("echo payload at the exit's socket differs from what the client sent (%d vs %d bytes)", len(sd.Data), len(up)))
+		}
+	}
+	if !haveExitKey || !haveKey || exitKey != key {
+		fail("ends-hold-different-keys", fmt.Sprintf("ingress holds a key: %v, exit holds a key: %v, equal: %v", haveKey, haveExitKey, haveKey && haveExitKey && exitKey == key))
+	}
+	echoFrames := c04ICMPInspect(nt, before, last, key, haveKey, nil, fail)
+	r.Add("evaluations", 1)
+	r.Add("data_frames_checked", int64(echoFrames))
+	if echoFrames > 0 {
+		r.Nontrivial(fmt.Sprintf("%d|%s|frames=%d", cs.Transits, cs.Kind, echoFrames))
+	}
+	r.Outcome(fmt.Sprintf("%d|%s|%d|ok|%d", cs.Transits, cs.Kind, cs.Size, echoFrames))
+}
+
 // ---- schedule part --------------------------------------------------------------------------
 
 type c04SchedWorld struct {
@@ -509,9 +659,159 @@ func c04ICMPSched(r *vmc.Result) {
 	}
 }
 
+// ---- schedule part, exit side ----------------------------------------------------------------
+
+// c04ExitSchedExec: one controlled execution of the real exit-side icmp.Handler. A session is opened
+// free-running through the real ingress and transit; an encrypted echo request is parked on the link
+// transit -> exit. Under the scheduler two threads run: the delivery of that echo (HandleICMPEcho writes
+// to the fake socket and spawns the real waitForReply goroutine, a third controlled thread) and the
+// delivery of an ICMP_CLOSE for the session. Oracle: every ICMP_ECHO reply the exit wrote opens under the
+// key the exit agreed on, and no frame holds the marker.
+func c04ExitSchedExec(r *vmc.Result, nt *nsNet, cs c04ICMPCase, c *vmc.Chooser) {
+	A, X := nt.agents[0], nt.agents[nt.n-1]
+	last := nt.n - 1
+	ctx := context.Background()
+	before := len(nt.sentSnapshot())
+	sid, err, ok := nsCall(nt, func() (uint64, error) { return A.CreateICMPSession(ctx, net.IPv4(10, 9, 0, 1)) })
+	if !ok || err != nil {
+		r.HarnessError("C04 exit schedule: CreateICMPSession: ok=%v err=%v", ok, err)
+		return
+	}
+	var exitSID uint64
+	var exitKey [32]byte
+	haveExitKey := false
+	for _, s := range nt.sentSnapshot()[before:] {
+		if s.To == last {
+			if f, derr := protocol.Decode(s.Bytes); derr == nil && f.Type == protocol.FrameICMPOpen {
+				exitSID = f.StreamID
+				if sess := X.icmpHandler.GetSession(f.StreamID); sess != nil {
+					if k := sess.GetSessionKey(); k != nil {
+						exitKey, haveExitKey = k.Key(), true
+					}
+				}
+			}
+		}
+	}
+	if !haveExitKey {
+		r.HarnessError("C04 exit schedule: exit holds no session key")
+		return
+	}
+	payload := nsMarked(c04Marker+"UP-", 40)
+	for k := 0; k < cs.Echoes; k++ {
+		if err := A.RelayICMPEcho(sid, 5, uint16(k), payload); err != nil {
+			r.HarnessError("C04 exit schedule: RelayICMPEcho: %v", err)
+			return
+		}
+	}
+	for i := 0; i+1 < last; i++ { // move the echoes up to the last link
+		for c04DeliverOne(nt, i, i+1) {
+		}
+	}
+	cl := &protocol.ICMPClose{Reason: protocol.ICMPCloseNormal}
+	closeFrame := &protocol.Frame{Type: protocol.FrameICMPClose, StreamID: exitSID, Payload: cl.Encode()}
+	out := sched.Run(c, sched.Opts{MaxSteps: 6000}, func() {
+		sched.GoNamed("deliver-echoes", func() {
+			for c04DeliverOne(nt, last-1, last) {
+			}
+		})
+		sched.GoNamed("deliver-close", func() { X.processFrame(nt.ids[last-1], closeFrame) })
+	})
+	cs.Choices = c.Choices()
+	r.Add("sched_points", int64(len(c.Trace)))
+	if out.Deadlock || out.Horizon || out.Panic != nil {
+		r.HarnessError("C04 exit schedule %+v: deadlock=%v horizon=%v panic=%v", cs, out.Deadlock, out.Horizon, out.Panic)
+	}
+	fail := func(clause, what string) {
+		r.Violate("C04/"+clause+"/icmp-exit-close-race", fmt.Sprintf("exit-side ICMP session, %d echo(es) in flight, close delivered concurrently, schedule %v: %s", cs.Echoes, cs.Choices, what), cs)
+	}
+	probe := []byte(c04Marker)[:8]
+	replies := 0
+	for _, s := range nt.sentSnapshot()[before:] {
+		if s.From != last {
+			continue
+		}
+		f, derr := protocol.Decode(s.Bytes)
+		if derr != nil {
+			continue
+		}
+		if bytes.Contains(f.Payload, probe) {
+			fail("plaintext-on-link", fmt.Sprintf("frame type %#x written by the exit on n%d->n%d contains the application marker in clear", f.Type, s.From, s.To))
+		}
+		if f.Type == protocol.FrameICMPEcho {
+			if e, derr := protocol.DecodeICMPEcho(f.Payload); derr == nil && e.IsReply && len(e.Data) > 0 {
+				replies++
+				if !c04Open(exitKey, e.Data) {
+					fail("not-sealed-under-tunnel-key", fmt.Sprintf("ICMP_ECHO reply body (%d bytes) written by the exit does not open under the session key", len(e.Data)))
+				}
+			}
+		}
+	}
+	// clean up for the next execution
+	A.CloseICMPSession(sid)
+	nt.run(nil, 100000)
+	r.Outcome(fmt.Sprintf("exit-sched|%d|replies=%d", cs.Echoes, replies))
+	r.Nontrivial(fmt.Sprintf("exit-sched|%d|replies=%d", cs.Echoes, replies))
+}
+
+func c04DeliverOne(nt *nsNet, from, to int) bool {
+	_, err := nt.deliver(from, to)
+	return err == nil
+}
+
+func c04ExitSched(r *vmc.Result) {
+	vicmp.Reset()
+	c04ICMPExit = true
+	nt, err := c04Build(1, "")
+	c04ICMPExit = false
+	if err != nil {
+		r.HarnessError("C04 exit schedule build: %v", err)
+		return
+	}
+	defer nt.close()
+	bound := vmc.Pick(r, 2, 3)
+	for e := 1; e <= vmc.Pick(r, 1, 2); e++ {
+		cs := c04ICMPCase{ICMP: true, Sched: true, Transits: 1, Kind: "icmp-exit", Echoes: e}
+		st := vmc.Explore(r, func(c *vmc.Chooser) { c04ExitSchedExec(r, nt, cs, c) }, vmc.DFSOpts{Bound: bound})
+		r.Add("evaluations", st.Executions)
+		r.Add("sched_executions", st.Executions)
+		r.Info[fmt.Sprintf("icmp_exit_sched_executions_%d", e)] = st.Executions
+		if !st.Complete {
+			return
+		}
+	}
+}
+
 func c04ICMPReplay(r *vmc.Result, cs c04ICMPCase) {
 	if !cs.Sched {
-		c04ICMPRun(r, cs)
+		if strings.HasSuffix(cs.Kind, "-real-exit") {
+			c04ICMPRealExit(r, cs)
+		} else {
+			c04ICMPRun(r, cs)
+		}
+		return
+	}
+	if cs.Kind == "udp-exit" {
+		w, err := c04UDPExitWorld()
+		if err != nil {
+			r.HarnessError("C04 udp exit schedule build: %v", err)
+			return
+		}
+		defer w.nt.close()
+		defer w.sink.Close()
+		c04UDPExitExec(r, w, cs, vmc.NewReplayChooser(cs.Choices))
+		return
+	}
+	if cs.Kind == "icmp-exit" {
+		vicmp.Reset()
+		c04ICMPExit = true
+		nt, err := c04Build(1, "")
+		c04ICMPExit = false
+		if err != nil {
+			r.HarnessError("C04 exit schedule build: %v", err)
+			return
+		}
+		defer nt.close()
+		c04ExitSchedExec(r, nt, cs, vmc.NewReplayChooser(cs.Choices))
 		return
 	}
 	nt, err := c04Build(1, "")
@@ -540,5 +840,17 @@ func c04ICMPAll(r *vmc.Result) {
 			}
 		}
 	}
+	for _, tr := range []int{1, 2} {
+		for _, kind := range []string{"icmp-ws-real-exit", "icmp-socks-real-exit"} {
+			for _, sz := range sizes {
+				if r.Expired() {
+					return
+				}
+				c04ICMPRealExit(r, c04ICMPCase{ICMP: true, Transits: tr, Kind: kind, Size: sz})
+			}
+		}
+	}
 	c04ICMPSched(r)
+	c04ExitSched(r)
+	c04UDPExitSched(r)
 }
